@@ -137,6 +137,11 @@ class ExactAlgorithmCplex(ExactAlgorithmBase, PairwiseBasedAlgorithm):
                 else:
                     # update the ranking to return
                     new_dataset: Dataset = dataset.sub_problem_from_ids(scc_i_set)
+                    # the rankings that contain no element of the sub-problem are not in the projection, but they
+                    # still induce costs (pairs of non-ranked elements): they are kept as empty rankings
+                    nb_rankings_lost: int = dataset.nb_rankings - new_dataset.nb_rankings
+                    if nb_rankings_lost > 0:
+                        new_dataset = Dataset(new_dataset.rankings + [Ranking([])] * nb_rankings_lost)
                     rankings: List[Ranking] = self._compute_consensus_rankings_with_optim(new_dataset, scoring_scheme,
                                                                                           False, True)
                     for bucket in rankings[0]:
